@@ -71,8 +71,8 @@ macro_rules! opaque {{
 opaque!({opaques});
 '''
 
-def emit(unit, fname, wrapper, wlabel, inner_ty, inner_field, other_fields, fns, file, impl, inner_doc, opaques, generics=False, param_renames=None):
-    out = [HEAD.format(unit=unit, inner_doc=inner_doc, wrapper=wrapper, opaques=', '.join(opaques))]
+def emit(unit, fname, wrapper, wlabel, inner_ty, inner_field, other_fields, fns, file, impl, inner_doc, opaques, generics=False, param_renames=None, prelude=''):
+    out = [HEAD.format(unit=unit, inner_doc=inner_doc, wrapper=wrapper, opaques=', '.join(opaques)) + prelude]
     out.append('impl %s {' % inner_ty)
     for name, kind, params, ret, lab in fns:
         params = [((param_renames or {}).get(n, n), t) for n, t in params]
@@ -133,7 +133,17 @@ emit('ACCDELEG', 'accdeleg.rs', 'ListenerSession', 'listener', 'SessionS', 'sess
      'session::Session, under contract in unit SESSION', SESS_OPAQUES + ['PendingFlows', 'LinkListener'], param_renames={'LINKRELAY_OPT': 'link_handle'})
 emit('TXNDELEG', 'txndeleg.rs', 'TxnSession', 'txn-session', 'SessionS', 'session', [('control', 'SessCtl'), ('txn_manager', 'TransactionManager')],
      SESSION_FNS + TXN_ONLY, 'fe2o3-amqp/src/transaction/session.rs', '~impl<S>endpoint::SessionforTxnSession<S>where',
-     'S: endpoint::Session -- session::Session on a client, ListenerSession on a listener; units SESSION, ACCSESS', SESS_OPAQUES + ['SessCtl', 'TransactionManager'], param_renames={'LINKRELAY_OPT': 'link_relay'})
+     'S: endpoint::Session -- session::Session on a client, ListenerSession on a listener; units SESSION, ACCSESS', [o for o in SESS_OPAQUES if o != 'Flow'] + ['SessCtl', 'TransactionManager', 'Fields', 'FlowRest'], param_renames={'LINKRELAY_OPT': 'link_relay'},
+     prelude='''//@@ gsubst `super::TXN_ID_KEY` => `TXN_ID_KEY` rule=R11
+/// Flow: the field a transactional session may look at (`properties`, where a `txn-id` requests transactional acquisition), the rest is one opaque field (R11)
+pub struct Flow { pub properties: Option<Fields>, pub rest: FlowRest }
+pub const TXN_ID_KEY: &'static str = "txn-id";
+impl Fields {
+    pub uninterp spec fn has_key(&self, k: &str) -> bool;
+    #[verifier::external_body]
+    pub fn contains_key(&self, k: &str) -> (r: bool) ensures r == self.has_key(k) { unimplemented!() }
+}
+''')
 emit('LCONNDELEG', 'lconndeleg.rs', 'ListenerConnection', 'listener-connection', 'ConnectionS', 'connection', [('session_listener', 'SessionListener')],
      CONN_FNS, 'fe2o3-amqp/src/acceptor/connection.rs', 'impl endpoint::Connection for ListenerConnection',
      'connection::Connection, under contract in unit CONN',
